@@ -11,6 +11,7 @@ import types
 import z3
 
 from symx import engine as E
+from symx.replay import step
 from . import common
 from .symrun import UnitResult
 
@@ -95,10 +96,19 @@ def unit_fn(unit):
         numbers = [] if shape == 'absent' else ([xs] if shape == 'one' else [xs, 'second-value'])
         today = ur.today_of(st, model)
         steps = [{'mod': 'wsgi_probe', 'file': PROBE, 'func': 'request', 'args': [common.REPO, numbers, ajax, modname], 'kwargs': {}}]
+        if shape != 'absent':
+            steps.append(step(modname, 'is_valid', xs))
         real = ur.replay(steps, today)
         if real is None:
             continue
         r0 = real[0]
+        if shape != 'absent' and isinstance(valid, (bool, E.SBool)):
+            # the module's own verdict on the real code must be the one of the symbolic path (engine validation)
+            v_sym = valid if isinstance(valid, bool) else z3.is_true(model.eval(valid.z, model_completion=True))
+            r1 = real[1]
+            if r1['kind'] != 'ret' or r1.get('value') is not v_sym:
+                ur.divergence({'input': xs, 'symbolic': 'is_valid=%r' % v_sym, 'real': {k: r1.get(k) for k in ('kind', 'type', 'value', 'msg')}})
+                continue
         base = {'module': 'online_check.stdnum_wsgi', 'func': 'application', 'options': json.dumps({'format_module': modname, 'ajax': ajax, 'number': shape}, sort_keys=True),
                 'witness': xs, 'today': today.isoformat() if today else None, 'steps': steps}
         # engine validation: crash / no crash must agree
